@@ -428,11 +428,13 @@ def _validators(ctx, repo):
             # is_valid = True only under the threshold test
             sets_true = [s for s in walk_no_nested(fn) if isinstance(s, ast.Assign) and ast.unparse(s.targets[0]) == "self.is_valid"
                          and isinstance(s.value, ast.Constant) and s.value.value is True]
-            ok = bool(sets_true) and all(any(s in i.body for i in walk_no_nested(fn) if isinstance(i, ast.If) and
-                                             "checklist_mandatory_avps" in ast.unparse(i.test)) for s in sets_true)
+            holds_ = lambda t_, v_: v_ is True or (isinstance(t_, ast.Compare) and len(t_.ops) == 1 and isinstance(t_.ops[0], ast.NotEq))
+            ok = bool(sets_true) and all(any("checklist_mandatory_avps" in ast.unparse(t_) and holds_(t_, v_) for t_, v_ in g_.get(id(s), []))
+                                         for s in sets_true)
             ctx.decide(ok, "R-DEP/peer-identity", f"{ci.qual}.{mname}", ci.where(fn), "is_valid = True only under the threshold test",
                        "is_valid is set True outside the mandatory-count test", key="is_valid_guard")
-        ini = ctx.need(ci.methods.get("__init__"), f"{cname}.__init__")
+        fm_ = ci.find_method("__init__")          # the constructor may be inherited from a shared (private) base class
+        ini = ctx.need(fm_[1] if fm_ else None, f"{cname}.__init__")
         src = ast.unparse(ini)
         ctx.decide("self.is_valid = False" in src and "self.connection = association.connection" in src, "R-DEP/peer-identity",
                    f"{ci.qual}.__init__", ci.where(ini), "validity defaults to False; connection is the association's",
@@ -441,8 +443,13 @@ def _validators(ctx, repo):
     for mname, cname in (("is_valid_capability_exchange", "ProcessCapabilityExchange"), ("is_valid_device_watchdog", "ProcessDeviceWatchdog"),
                          ("is_valid_disconnect_peer", "ProcessDisconnectPeer")):
         fn = ctx.need(bp.methods.get(mname), f"BaseMessageProcessor.{mname}")
-        src = ast.unparse(fn)
-        ctx.decide(f"{cname}(self.association, msg)" in src and "return process.is_valid" in src, "R-DEP/peer-identity",
+        # on terms: every path returns the `is_valid` attribute of ONE construction `<cname>(self.association, <the message>)`
+        from .. import sym as _sd
+        from ..astutil import strip_doc as _sdoc
+        ps_ = [a_.arg for a_ in fn.args.args if a_.arg != "self"]
+        want_ = ("attr", ("call", ("name", cname), (("attr", ("name", "self"), "association"), _sd.S(ps_[0])), ()), "is_valid") if ps_ else None
+        rets_ = [p_.value for p_ in _sd.Interp().run(_sdoc(fn.body), _sd.PathState({a_: _sd.S(a_) for a_ in ps_}, [], [])) if p_.term != "raise"]
+        ctx.decide(bool(rets_) and all(v_ == want_ for v_ in rets_), "R-DEP/peer-identity",
                    f"{bp.qual}.{mname}", bp.where(fn), f"returns {cname}(...).is_valid",
                    f"{mname} does not return the is_valid of {cname}(self.association, msg)", key="delegates")
 
